@@ -34,6 +34,7 @@ ALWAYS_INLINE = {
     "transactions::RepLog::append",
     "prefixed_storage::namespace_helpers::trim",
     "transactions::MergeOverlay::pick_match",
+    "wasm::encode_response_data",
 }
 
 
